@@ -80,6 +80,9 @@ def gen_case(rng, tool, malformed_ok=True):
             tds = [cc.total_decrease(r) for r in c["rows"] if not any(math.isnan(v) for v in r)]
             if tds:
                 c["tol"] = max(0.0, rng.choice(tds) + rng.choice([0, 0, -0.125, 0.125]))
+    if tool == "integrate":
+        c["pw"] = None if rng.random() < 0.5 else [[rng.choice([0.0, 1.0, 0.5, 0.25, 2.0, cc.NAN if rng.random() < 0.2 else 1.0])
+                                                      for _ in r] for r in c["rows"]]
     if tool == "adjust":
         c["tol"] = rng.choice([0, 0, 0, 0.125, 0.25, 0.5] + ([-0.25] if malformed_ok and rng.random() < 0.3 else []))
         c.update(cc.gen_obs(rng, c))
@@ -113,13 +116,18 @@ def run_impl(c):
                 r = C.observed_cdf(da, tdim, threshold_values=c["tv"], include_obs_in_thresholds=c["include"], precision=c["prec"])
                 r = r.transpose(*dims, tdim)
                 g = [float(v) for v in r[tdim].values]
+                if not g:
+                    return {"grid": g, "rows": [[] for _ in c["obs"]]}
                 return {"grid": g, "rows": np.asarray(r.values, dtype=float).reshape(-1, len(g)).tolist()}
             tdim = cc.fresh("thr", "eshold")
             da = cc.mk(c, tdim)
             if tool == "propagate":
                 return cc.rows_of(C.propagate_nan(da, tdim), c, tdim)
             if tool == "integrate":
-                r = C.integrate_square_piecewise_linear(da, tdim)
+                if c.get("pw") is not None:
+                    r = C.integrate_square_piecewise_linear(da, tdim, piece_weight=cc.mk(c, tdim, rows=c["pw"]))
+                else:
+                    r = C.integrate_square_piecewise_linear(da, tdim)
                 return cc.scalars_of(r, c)
             if tool == "fill":
                 return cc.rows_of(C.fill_cdf(da, tdim, c["method"], c["min_nonnan"]), c, tdim)
@@ -159,6 +167,8 @@ def model_op(c):
         return {"op": "c17.observed", "args": {"obs": L(c["obs"]), "tv": None if c["tv"] is None else L(c["tv"]),
                                               "include": c["include"], "prec": S(c["prec"])}}
     a = {"thr": L(c["thr"]), "rows": M(c["rows"])}
+    if t == "integrate" and c.get("pw") is not None:
+        return {"op": "c17.integrate", "args": dict(a, pw=M(c["pw"]))}
     if t in ("propagate", "integrate", "envelope"):
         return {"op": "c17." + t, "args": a}
     if t == "fill":
@@ -186,9 +196,12 @@ def malformed(c):
         return True
     if c.get("method") not in (None, "linear", "step", "forward", "backward", "none"):
         return True
-    if "min_nonnan" in c and (c["min_nonnan"] < 1 or (c["method"] == "linear" and c["min_nonnan"] < 2)):
+    if "min_nonnan" in c and c["method"] != "none" and (c["min_nonnan"] < 1 or (c["method"] == "linear" and c["min_nonnan"] < 2)):
         return True
-    if c.get("oob"):
+    if c["tool"] == "observed" and all(math.isnan(v) for v in c["obs"]) and \
+            (c["tv"] is None or all(math.isnan(v) for v in c["tv"])):
+        return True   # documented ValueError: nothing to build thresholds from
+    if c.get("oob") and (c["tool"] in ("fill", "adjust") or (c["tool"] == "add" and c["method"] != "none")):
         return True
     return False
 
@@ -244,7 +257,7 @@ def adjust_candidates(c, det):
 def correspondence(ctx):
     rng = ctx.rng
     cases = []
-    per_tool = ctx.n(70, 1800)
+    per_tool = ctx.n(160, 1800)
     for tool in TOOLS:
         k = per_tool * (2 if tool in ("fill", "add", "envelope", "adjust") else 1)
         for _ in range(k):
@@ -357,13 +370,14 @@ def check_case(ctx, c, spec, batch):
                     bad("observed-cdf-is-not-indicator-of-t>=obs", row, want, "observedRow_spec")
     elif tool == "integrate":
         thr = [Fraction(t) for t in c["thr"]]
-        for xs, r in zip(c["rows"], impl):
+        for ri, (xs, r) in enumerate(zip(c["rows"], impl)):
             tot, any_piece = Fraction(0), False
             for k in range(len(xs) - 1):
-                if math.isnan(xs[k]) or math.isnan(xs[k + 1]):
+                pwk = 1.0 if c.get("pw") is None else c["pw"][ri][k + 1]
+                if math.isnan(xs[k]) or math.isnan(xs[k + 1]) or math.isnan(pwk):
                     continue
                 a, b = Fraction(xs[k]), Fraction(xs[k + 1])
-                tot += (thr[k + 1] - thr[k]) * (a * a + a * b + b * b) / 3
+                tot += Fraction(pwk) * (thr[k + 1] - thr[k]) * (a * a + a * b + b * b) / 3
                 any_piece = True
             want = tot if any_piece else cc.NAN
             if not core.close(r, want):
@@ -391,7 +405,7 @@ def check_case(ctx, c, spec, batch):
                 if t in given and v != given[t]:
                     bad("given-ordinate-changed", rs, xs, "fillRow_keeps")
                     break
-                if not math.isnan(v) and not (0 <= v <= 1):
+                if t not in given and not math.isnan(v) and not (0 <= v <= 1):
                     bad("filled-value-outside-unit-interval", rs, "[0,1]", "fillRow_unit")
                     break
             if want_rows is not None and not same(rs, want_rows[i]):
@@ -489,7 +503,7 @@ def oracle(ctx, boost):
     rng = ctx.rng
     mult = 5 if boost else 1
     cases = []
-    per_tool = ctx.n(40, 900) * mult
+    per_tool = ctx.n(100, 900) * mult
     for tool in ORACLE_TOOLS:
         k = per_tool * (2 if tool in ("add", "envelope", "adjust") else 1)
         for _ in range(k):
